@@ -115,6 +115,11 @@ static Value genTransport(vg::Rng &r, bool big) {
   }
   Value v = Value::object();
   v.set("cap", Value::from(cap)).set("dem", Value::from(dem)).set("cost", cost).set("float", fl).set("increase", mode == 2);
+  // quantities (cell areas) are long long: the same instance with every capacity and demand multiplied by 2^qscale.  The
+  // solver only compares and subtracts quantities, so the plan is the same in units of 2^qscale; the event is logged in units.
+  int qs = 0;
+  if (big && mode != 2 && style != 2) qs = (int)r.pick(std::vector<int>{0, 27, 31, 33, 36});
+  v.set("qscale", qs);
   return v;
 }
 
@@ -296,17 +301,30 @@ static void runRowHist(int run, const Value &in) {
 static void runTransport(int run, const Value &in) {
   std::vector<long long> cap = in["cap"].longs(), dem = in["dem"].longs();
   int ns = (int)cap.size(), nr = (int)dem.size();
+  int qs = in.has("qscale") ? (int)in["qscale"].asInt() : 0;
+  for (auto &c : cap) c <<= qs;
+  for (auto &d : dem) d <<= qs;
   Value ev = vt::ev("Transport");
-  ev.set("run", run);
+  ev.set("run", run).set("qscale", qs);
   auto finish = [&](TransportationProblem &pb) {
     if (in["increase"].asBool()) pb.increaseCapacity();
     pb.solve();
     std::vector<std::vector<long long>> costs(ns, std::vector<long long>(nr));
     for (int i = 0; i < ns; ++i)
       for (int s = 0; s < nr; ++s) costs[i][s] = pb.cost(i, s);
-    ev.set("cap", Value::from(pb.capacities())).set("dem", Value::from(pb.demands())).set("cost", mat(costs));
-    ev.set("alloc", mat(pb.allocations()));
-    ev.set("pot", Value::from(potentials(pb.capacities(), costs, pb.allocations())));
+    // back to units of 2^qscale (exact for the plans of this solver; if not, the event says so and TLC gives no verdict on the plan)
+    std::vector<long long> ucap = pb.capacities(), udem = pb.demands();
+    std::vector<std::vector<long long>> ualloc = pb.allocations();
+    bool units = true;
+    long long mask = qs > 0 ? ((1LL << qs) - 1) : 0;
+    for (auto &c : ucap) { units = units && (c & mask) == 0; c >>= qs; }
+    for (auto &d : udem) { units = units && (d & mask) == 0; d >>= qs; }
+    for (auto &row : ualloc)
+      for (auto &a : row) { units = units && (a & mask) == 0; a >>= qs; }
+    ev.set("units", units);
+    ev.set("cap", Value::from(ucap)).set("dem", Value::from(udem)).set("cost", mat(costs));
+    ev.set("alloc", mat(ualloc));
+    ev.set("pot", Value::from(potentials(ucap, costs, ualloc)));
     std::vector<int> as = pb.toAssignment();
     for (auto &a : as) a += 1;
     ev.set("assign", Value::from(as));
